@@ -171,6 +171,22 @@ def core_pool():
     return c
 
 
+def grid_pool():
+    """systematic family for the stride / padding formulas of plain+FixedSize lists (thorough tier of C02-C05):
+    every combination of (kind, kind) x (first type, alignment) x (second type, alignment), half of them with a tail"""
+    out = []
+    i = 0
+    for k1, k2 in (('f', 'f'), ('f', 'p'), ('p', 'f')):
+        for t1, a1 in (('u16', 1), ('u16', 8), ('u32', 1), ('u8', 4)):
+            for t2, a2 in (('double', 8), ('u32', 4), ('u16', 2)):
+                prm = [(k1, t1, a1), (k2, t2, a2)]
+                if i % 2:
+                    prm.append(('p', 'u8', 1))
+                i += 1
+                out.append(make(prm, STD, tags={'grid', 'layout', 'fixedlayout'}))
+    return out
+
+
 ALLOC_MATRIX = [(a, b, c, d) for d in (False, True) for a in (False, True) for b in (False, True) for c in (False, True)]
 
 
